@@ -41,7 +41,7 @@ package ion
 //@ ensures[C04] vcFresh(result) || vcSameArray(result, b)
 //@ unroll loop0 8
 //@ ensures[C04,C13] len(result) == len(b) + int(specUintLen(v))
-//@ ensures[C01,C13] forall k int :: 0 <= k && k < int(specUintLen(v)) ==>
+//@ ensures[C01,C04,C13] forall k int :: 0 <= k && k < int(specUintLen(v)) ==>
 //@    result[len(b)+k] == specUintByte(v, specUintLen(v), uint64(k))
 //@ cases k 0 10
 //@ ensures[C04] forall k int :: 0 <= k && k < len(b) ==> result[k] == old(b)[k]
@@ -51,7 +51,7 @@ package ion
 //@ ensures[C04] vcFresh(result) || vcSameArray(result, b)
 //@ unroll loop0 10
 //@ ensures[C04,C13] len(result) == len(b) + int(specVarUintLen(v))
-//@ ensures[C01,C13] forall k int :: 0 <= k && k < int(specVarUintLen(v)) ==>
+//@ ensures[C01,C04,C13] forall k int :: 0 <= k && k < int(specVarUintLen(v)) ==>
 //@    result[len(b)+k] == specVarUintByte(v, specVarUintLen(v), uint64(k))
 //@ cases k 0 10
 //@ ensures[C04] forall k int :: 0 <= k && k < len(b) ==> result[k] == old(b)[k]
@@ -61,7 +61,7 @@ package ion
 //@ inlinecall appendUint
 //@ ensures[C04] vcFresh(result) || vcSameArray(result, b)
 //@ ensures[C04,C13] len(result) == len(b) + int(specIntLen(n))
-//@ ensures[C01,C13] forall k int :: 0 <= k && k < int(specIntLen(n)) ==>
+//@ ensures[C01,C04,C13] forall k int :: 0 <= k && k < int(specIntLen(n)) ==>
 //@    result[len(b)+k] == specIntByte(n, specIntLen(n), uint64(k))
 //@ cases k 0 10
 //@ ensures[C04] forall k int :: 0 <= k && k < len(b) ==> result[k] == old(b)[k]
@@ -71,7 +71,7 @@ package ion
 //@ ensures[C04] vcFresh(result) || vcSameArray(result, b)
 //@ unroll loop0 10
 //@ ensures[C04,C13] len(result) == len(b) + int(specVarIntLen(v))
-//@ ensures[C01,C13] forall k int :: 0 <= k && k < int(specVarIntLen(v)) ==>
+//@ ensures[C01,C04,C13] forall k int :: 0 <= k && k < int(specVarIntLen(v)) ==>
 //@    result[len(b)+k] == specVarIntByte(v, specVarIntLen(v), uint64(k))
 //@ cases k 0 10
 //@ ensures[C04] forall k int :: 0 <= k && k < len(b) ==> result[k] == old(b)[k]
